@@ -259,7 +259,11 @@ class Engine(ExprMixin, CallMixin, StmtMixin):
             node = ast.parse(stub).body[0]
             self.globals_of_current = dict(getattr(c, "stub_globals", {}))
         else:
-            node = self.front.find(key)
+            try:
+                node = self.front.find(key)
+            except KeyError as e:
+                # the function the contract is about is gone (renamed, inlined, rewritten): undecided, not an error
+                raise Unsupported(f"function under contract not found: {e}")
             self.globals_of_current = self.front.module_globals(key)
         self.current_key_for_nested = key
         self.loop_ordinal = {id(l): i + 1 for i, l in enumerate(loops_in_order(node))}
